@@ -81,6 +81,15 @@ def gen_package(rng, special=None):
         ps['list_reserved'] = True
     elif special == 'picture-dir':
         ps['picdir'] = True
+    elif special == 'many-objects':
+        # 10-12 top-level objects ("Object 10/" sorts before "Object 2/"), alternating kinds, sometimes in permuted manifest order
+        nums = list(range(1, rng.choice([10, 11, 12]) + 1))
+        if rng.random() < 0.5:
+            rng.shuffle(nums)
+        ps['objects'] = [{'num': n, 'kind': 'text' if i % 2 == 0 else 'spreadsheet', 'settings': False,
+                          'pics': [(u'Pictures/obj%d.png' % n, u'image/png', bytes([n, 1, 2]).hex())] if i % 3 == 0 else [], 'nested': False}
+                         for i, n in enumerate(nums)]
+        ps['shuffle'] = False
     return ps
 
 
@@ -270,7 +279,7 @@ def depth(spec):
 
 def gen_cases(chk, n):
     rng = chk.rng
-    specials = ['no-mimetype-member', 'root-differs', 'no-root', 'list-reserved', 'picture-dir']
+    specials = ['no-mimetype-member', 'root-differs', 'no-root', 'list-reserved', 'picture-dir', 'many-objects']
     # fixed corner cases first: the failing cell of the old matrix, the known findings
     yield {'doc': {'kind': 'text', 'settings': False, 'pics': [], 'thumb': None, 'kids': [
         {'kind': 'spreadsheet', 'settings': True, 'pics': [{'how': 'string', 'data': '89504e47', 'mt': u'image/png'}], 'thumb': None, 'kids': [
